@@ -25,7 +25,7 @@ TIMEOUT = 150
 
 def _norm(e):
     return {"ev": e["ev"], "run": e["run"], "var": {"prog": e["var"]["prog"], "on": sorted(e["var"]["on"]), "route": e["var"].get("route", "plain"),
-                                                         "inout": e["var"].get("inout", "no")},
+                                                         "inout": e["var"].get("inout", "no"), "dev": e["var"].get("dev", "same")},
             "target": e["target"], "fs": dict(e["fs"]), "queue": [dict(q) for q in e["queue"]], "loose": sorted(e["loose"])}
 
 
@@ -75,11 +75,12 @@ def case_from_hist(hist, cid, hist_mode=False, seed=0):
     nbk = sum(1 for k in first["fs"] if k.startswith("b"))
     init = {k: v for k, v in first["fs"].items() if k not in ("other",) and v != "absent"}
     return {"id": cid, "names": names, "nbk": nbk, "init": init, "runs": runs, "seed": seed, "instrument": True,
-            "route": first["var"].get("route", "plain"), "inout": first["var"].get("inout", "no")}
+            "route": first["var"].get("route", "plain"), "inout": first["var"].get("inout", "no"),
+            "dev": first["var"].get("dev", "same")}
 
 
 def case_key(case):
-    return json.dumps([[r["prog"], r["on"], r["target"], r["crash"]] for r in case["runs"]] + [sorted(case["init"].items()), case.get("route", "plain"), case.get("inout", "no")])
+    return json.dumps([[r["prog"], r["on"], r["target"], r["crash"]] for r in case["runs"]] + [sorted(case["init"].items()), case.get("route", "plain"), case.get("inout", "no"), case.get("dev", "same")])
 
 
 def _ref_job(arg):
@@ -187,7 +188,7 @@ GOOD = ["gp_min", "gp_dna", "gp_ps_json", "gp_ppi", "gp_p3ht", "gp_lib", "gc_min
 SLOW = ["gc_uff"]     # 10-20 s per complete run (template optimisation): a few runs in the thorough tier only
 BAD = ["gp_bad_res", "gp_bad_file", "gp_bad_seq", "gc_bad_start", "gc_bad_top", "gc_bad_filter", "gc_bad_split",
        "gs_bad_macro", "gs_bad_string"]
-BASE = {"gen_params": ["read_ff", "graph", "dsdna", "map", "links", "mods", "missing", "open", "write", "flush"],
+BASE = {"gen_params": ["read_ff", "graph", "dsdna", "map", "links", "mods", "missing", "open", "write", "close", "flush"],
         "gen_coords": ["read_top", "preprocess", "check", "split", "coords", "build_file", "start", "grid", "templates", "ligands",
                        "cycles", "build", "split_lig", "backmap", "convert", "open", "write", "flush"],
         "gen_seq": ["macro_file", "macro_str", "graph", "termini", "labels", "to_json", "popen", "pwrite"]}
@@ -234,7 +235,7 @@ def random_cases(n, sd, nslow=0):
                 and key in ("gc_full", "gc_coords_bld", "gp_min", "gp_p3ht", "gp_ps_json", "gp_bad_res", "gp_bad_seq")):     # inputs whose file has the output's format (.gro / .itp)
             inout, init["out"] = rng.choice(["same", "link", "dots"]), "inp"   # the run reads an input from the output path
         cases.append({"id": "t%04d" % i, "names": names, "nbk": TNBK, "init": init, "seed": sd, "instrument": True, "no_parent": no_parent,
-                      "route": route, "inout": inout,
+                      "route": route, "inout": inout, "dev": "cross" if (not no_parent and rng.random() < 0.2) else "same",
                       "runs": [{"prog": prog, "on": sorted(on), "input": key, "target": "out", "crash": crash,
                                 "exc": rng.choice(["Exception", "BaseException"])}]})
     return cases
@@ -403,6 +404,7 @@ DEVS = [("Out_dev_plainopen.cfg", "NoEarlyEffect", "output opened with open() in
         ("Out_dev_bkcount.cfg", "OthersKept", "backup index = count of existing backups + 1: a non-contiguous backup set gets an existing backup overwritten (seed-C20-2)"),
         ("Out_dev_inplace.cfg", "NoEarlyEffect", "output path holds an input of the run and is updated in place: truncated when serialisation fails (seed3-C20-2)"),
         ("Out_dev_inplace_succ.cfg", "SuccessState", "output path holds an input of the run and is updated in place: previous bytes not under a backup name (seed3-C20-2)"),
+        ("Out_dev_moveclose_cross.cfg", "SuccessState", "gen_params flushes the writer before the handle is closed: with the temp directory on another file system the buffered tail is lost (seed5-C20-1)"),
         ("Out_dev_routediscard.cfg", "SuccessState", "own queue entry not recognised when the output path runs through a symlinked directory: nothing is written (seed2-C20-1)")]
 # the same flags against further properties (thorough tier)
 DEVS_MORE = [("Out_dev_plainopen_succ.cfg", "SuccessState", "output opened with open(): no backup of the previous file"),
@@ -430,24 +432,28 @@ def run(tier):
                       "(tempfile.tempdir) so that the writer's temporary files can be observed",
                       "out of the statement's domain, checked for conformance only: crashes inside the flush / inside gen_seq's final write, and two runs in one process (N3)"]
     wd = c.workdir(PROP, "runs")
+    import atexit, os, shutil
+    atexit.register(shutil.rmtree, "/dev/shm/verif_c20_%d" % os.getpid(), True)
     ck.stage("TLC: model, sensitivity runs, history instances, exports (concurrently)")
     jobs = [("Output_MC", "Out_small.cfg", {"workers": 2, "coverage": True}),
             ("Output_Export", "Out_export.cfg", {"workers": 2}),
             ("Output_MC", "Out_hist_persist.cfg", {"workers": 1, "check": False}),
             ("Output_MC", "Out_hist_fresh.cfg", {"workers": 1}),
             ("Output_MC", "Out_hist_same.cfg", {"workers": 1}),
+            ("Output_MC", "Out_dev_moveclose_same.cfg", {"workers": 1}),
             ("Output_Export", "Out_hist_export_persist.cfg", {"workers": 1}),
             ("Output_Export", "Out_hist_export_fresh.cfg", {"workers": 1})]
     devs = DEVS + (DEVS_MORE if tier == "thorough" else [])
     jobs += [("Output_MC", cfg, {"workers": 1, "check": False}) for cfg, _, _ in devs]
     res = c.tlc_many(jobs)
-    small, export, hpers, hfresh, hsame, xpers, xfresh = res[:7]
+    small, export, hpers, hfresh, hsame, mcsame, xpers, xfresh = res[:8]
+    ck.model_must_hold(mcsame, "flush before close with everything on ONE file system: SuccessState still holds (the deviation only shows across devices)")
     ck.model_must_hold(small, "NoEarlyEffect/SuccessState/OthersKept/OnlyBackupCreated/NoLoss/TargetWhole/TmpClean/CommitOnly")
     cov = small.coverage()
-    for act in ("Work", "OpenDeferred", "PlainOpen", "WriteBegin", "WriteEnd", "FlushBegin", "FlushFind", "FlushBackup", "FlushMove", "AnyCrash", "Finish"):
+    for act in ("Work", "OpenDeferred", "PlainOpen", "WriteBegin", "WriteEnd", "CloseHandle", "FlushBegin", "FlushFind", "FlushBackup", "FlushMove", "AnyCrash", "Finish"):
         if not cov.get(act):
             raise c.MachineryError("action %s never taken in Out_small (vacuous)" % act)
-    for (cfg, inv, what), r in zip(devs, res[7:]):
+    for (cfg, inv, what), r in zip(devs, res[8:]):
         ck.model_must_refute(r, inv, what)
     ck.model_must_hold(export, "export")
     ck.model_must_hold(hfresh, "history, second run in a fresh process: HistoryClean")
@@ -459,7 +465,7 @@ def run(tier):
 
     # ---- S -> I
     hists = export.cases()
-    if len(hists) < 6000:
+    if len(hists) < 7000:
         raise c.MachineryError("Output_Export produced only %d behaviours" % len(hists))
     inside = [h for h in hists if h[-1]["ev"]["when"] == "inside"]
     hists = [h for h in hists if h[-1]["ev"]["when"] != "inside"]
@@ -467,15 +473,23 @@ def run(tier):
     ck.extra["behaviours_inside_work_stage_not_injectable"] = len(inside)
     if tier == "quick":
         # stratified (seeded): every (variant, crash point); all 20 initial directories for success and the flush points,
-        # 3 plain + 2 symlink directories for the serialisation points, 1 plain + 1 symlink for the work stages
+        # 2 plain + 1 symlink directories for the serialisation points, 1 plain + 1 symlink for the work stages
         rng = random.Random(sd)
         groups = {}
         for h in hists:
-            groups.setdefault(json.dumps([h[0]["var"]["prog"], sorted(h[0]["var"]["on"]), h[0]["var"]["route"] == "plain", h[0]["var"]["inout"] == "no", h[-1]["ev"]], sort_keys=True), []).append(h)
+            groups.setdefault(json.dumps([h[0]["var"]["prog"], sorted(h[0]["var"]["on"]), h[0]["var"]["route"] == "plain", h[0]["var"]["inout"] == "no", h[0]["var"]["dev"], h[-1]["ev"]], sort_keys=True), []).append(h)
         sel = []
         for k in sorted(groups):
             g = sorted(groups[k], key=lambda h: json.dumps(h[0]["fs"], sort_keys=True))
             last = g[0][-1]["ev"]
+            if g[0][0]["var"]["dev"] == "cross":
+                # temp directory on another file system (3 initial directories): all 3 for success and the flush points, 1 from
+                # open to close, none for the earlier work stages (nothing device-dependent has happened yet)
+                if last["kind"] == "finish" or last["stage"] == "flush":
+                    sel += g
+                elif last["stage"] in ("open", "write", "close", "popen", "pwrite"):
+                    sel += rng.sample(g, 1)
+                continue
             if g[0][0]["var"]["inout"] != "no":
                 # the output path holds an input of the run (3 ways of naming it x 3 initial directories = 9 per crash point):
                 # all 9 for success and the end of the flush, 3 (one per way) around serialisation / flush, 1 for work stages
@@ -499,7 +513,7 @@ def run(tier):
             if last["kind"] == "finish" or (last["stage"], last["when"]) in (("flush", "mid"), ("flush", "after"), ("pwrite", "mid")):
                 sel += g                                   # where the backup rule acts: all 20 initial directories
             elif last["stage"] in ("popen", "pwrite", "write", "open", "flush"):
-                sel += rng.sample([h for h in g if h not in links], 3) + rng.sample(links, 2)
+                sel += rng.sample([h for h in g if h not in links], 2) + rng.sample(links, 1)
             else:
                 sel += rng.sample([h for h in g if h not in links], 1) + rng.sample(links, 1)
         hists = sel
